@@ -137,12 +137,12 @@ def _solve_one(args):
     # stage A: without the hypotheses that constrain nonlinear polynomials (sound: fewer hypotheses)
     lin_hyps = [h for h in hyps if not is_nl_constraint(h)]
     if len(lin_hyps) != len(hyps) and not is_nl_constraint(goal):
+        okA = _split_last(lin_hyps, goal, min(t_z3, 10000))
+        if okA:
+            return "discharged", "z3+split", time.time() - t0, okA
         rA, dtA, infoA = _z3_check(vc_to_smt2(lin_hyps, goal), t_z3)
         if rA == "unsat":
             return "discharged", "z3", time.time() - t0, "without nonlinear constraints"
-        okA = _split_last(lin_hyps, goal, min(t_z3, 8000))
-        if okA:
-            return "discharged", "z3+split", time.time() - t0, okA
     ok = _split_last(hyps, goal, min(t_z3, 4000))
     if ok:
         return "discharged", "z3+split", time.time() - t0, ok
@@ -564,7 +564,7 @@ def _derived_idx(vc, hyps):
     return tuple(i for i, h in enumerate(hyps) if h.get_id() in ids)
 
 
-def discharge_all(vcs, t_z3_ms=10000, t_cvc5_ms=10000, use_cvc5=True, parallel=True, poly=True):
+def discharge_all(vcs, t_z3_ms=10000, t_cvc5_ms=10000, use_cvc5=True, parallel=True, poly=True, workers=None):
     """sets status/backend/time/detail on every VC"""
     jobs = []
     for vc in vcs:
@@ -583,7 +583,7 @@ def discharge_all(vcs, t_z3_ms=10000, t_cvc5_ms=10000, use_cvc5=True, parallel=T
         filtered.append(len(hyps) != len(vc.hyps))
         payload.append((vc_to_smt2(hyps, vc.goal), t_z3_ms, t_cvc5_ms, use_cvc5, poly, _derived_idx(vc, hyps)))
     if parallel and len(jobs) > 1:
-        results = list(pool().map(_solve_one, payload, chunksize=1))
+        results = list(pool(workers).map(_solve_one, payload, chunksize=1))
     else:
         results = [_solve_one(p) for p in payload]
     retry = []
